@@ -183,6 +183,8 @@ type RuntimeErr struct {
 	ErrKind         RuntimeErrorKind
 	MessageInternal string
 	Span            errors.Span
+	// For cast errors: the path of the offending value inside the value that was cast (like `.field[0]`).
+	CastPath string
 }
 
 func (self RuntimeErr) Kind() InterruptKind { return FatalExceptionInterruptKind }
